@@ -5,12 +5,13 @@
     Reading guide.  [Rdm_compute beta H = Done D] says: DensityMatrix::prepare + compute on the diagonalised blocks
     H (eigenvalues, eigenvectors, Fock states per block) returned the parts D.  [weight_at D a s] is the weight of
     eigenstate s of block a, [energy_at H a s] its eigenvalue, [valid_state H a s] says (a, s) names an eigenstate.
-    Scope: real matrix elements (the default build).  With POMEROL_COMPLEX_MATRIX_ELEMENTS the same model is run at
-    complex binary64 in the correspondence check, but the trace statements below are proved for real eigenvectors
-    only; they are named ..._partial for that reason (gap: |v|^2 = v conj(v) for complex components).  The weight
-    statements involve real numbers only and are complete. *)
+    Both builds are covered: the weight statements involve real numbers only (RealType in either build); the
+    trace statements are stated over R for the default build and, as ..._complex, over C for
+    POMEROL_COMPLEX_MATRIX_ELEMENTS (PV.ThermalTraces proves them once over any commutative ring with an
+    involution, using of the modulus only |v*v| = v conj(v); PV.ThermalComplex instantiates at Coquelicot's C). *)
 Require Import Reals List Arith.
-From PV Require Import Outcome Thermal ThermalSpec ThermalProofs ThermalExamples.
+From Coquelicot Require Import Complex.
+From PV Require Import Outcome Thermal ThermalSpec ThermalProofs ThermalExamples ThermalTraces ThermalComplex.
 Import ListNotations.
 Local Open Scope R_scope.
 
@@ -110,7 +111,7 @@ Print Assumptions trace_rho_is_total_weight.
 
 (** Average energy = Tr(rho Hm) for any matrix Hm on the Fock space of which the assembled eigenvectors are
     normalised eigenvectors with the stored eigenvalues (what the per-run certificate CERT establishes). *)
-Theorem avg_energy_is_trace_partial : forall (fock : list nat) (H : list Rhpart) (D : list Rdmpart) (Hm : nat -> nat -> R),
+Theorem avg_energy_is_trace : forall (fock : list nat) (H : list Rhpart) (D : list Rdmpart) (Hm : nat -> nat -> R),
   (* eigen_equation *)
   (forall hp s f, In hp H -> (s < hp_size R hp)%nat -> In f fock ->
      lsum (fun g => Hm f g * comp hp s g) fock = nth s (hp_eig R hp) 0 * comp hp s f) ->
@@ -120,37 +121,37 @@ Theorem avg_energy_is_trace_partial : forall (fock : list nat) (H : list Rhpart)
   (forall hd, In hd (combine H D) -> length (dp_weights R (snd hd)) = hp_size R (fst hd)) ->
   Rdm_average_energy H D = trace_rho_op fock H D Hm.
 Proof. exact ThermalProofs.avg_energy_is_trace. Qed.
-Print Assumptions avg_energy_is_trace_partial.
+Print Assumptions avg_energy_is_trace.
 
 (** Per-index occupancy (|v_fi|^2 times test(i) of the Fock state, weighted) = Tr(rho n_i); an index beyond the
     number of modes is an out-of-bounds read of the bit string. *)
-Theorem occupancy_is_trace_partial : forall (fock : list nat) (H : list Rhpart) (D : list Rdmpart),
+Theorem occupancy_is_trace : forall (fock : list nat) (H : list Rhpart) (D : list Rdmpart),
   NoDup fock -> (forall hp, In hp H -> wf_hpart hp) -> (forall hp, In hp H -> incl (hp_states R hp) fock) ->
   forall M i : nat, (i < M)%nat ->
   Rdm_average_occupancy_i M i H D = Done (trace_rho_op fock H D (op_n i)).
 Proof. exact ThermalProofs.occupancy_is_trace. Qed.
-Print Assumptions occupancy_is_trace_partial.
+Print Assumptions occupancy_is_trace.
 
 (** Total occupancy = Tr(rho N). *)
-Theorem total_occupancy_is_trace_partial : forall (fock : list nat) (H : list Rhpart) (D : list Rdmpart),
+Theorem total_occupancy_is_trace : forall (fock : list nat) (H : list Rhpart) (D : list Rdmpart),
   NoDup fock -> (forall hp, In hp H -> wf_hpart hp) -> (forall hp, In hp H -> incl (hp_states R hp) fock) ->
   forall M : nat, Rdm_average_occupancy M H D = trace_rho_op fock H D (op_N M).
 Proof. exact ThermalProofs.total_occupancy_is_trace. Qed.
-Print Assumptions total_occupancy_is_trace_partial.
+Print Assumptions total_occupancy_is_trace.
 
 (** Double occupancy = Tr(rho n_i n_j). *)
-Theorem double_occ_is_trace_partial : forall (fock : list nat) (H : list Rhpart) (D : list Rdmpart),
+Theorem double_occ_is_trace : forall (fock : list nat) (H : list Rhpart) (D : list Rdmpart),
   NoDup fock -> (forall hp, In hp H -> wf_hpart hp) -> (forall hp, In hp H -> incl (hp_states R hp) fock) ->
   forall M i j : nat, (i < M)%nat -> (j < M)%nat ->
   Rdm_average_double_occupancy M i j H D = Done (trace_rho_op fock H D (op_nn i j)).
 Proof. exact ThermalProofs.double_occ_is_trace. Qed.
-Print Assumptions double_occ_is_trace_partial.
+Print Assumptions double_occ_is_trace.
 
 (** Ensemble average of an operator O stored block-wise in the eigenbasis (EnsembleAverage on a
     QuadraticOperator c^+_i c_j) = Tr(rho O); only diagonal blocks contribute.  Hypotheses on the operator data:
     [rotated] the stored diagonal elements are <b,n|O|b,n> (C10), [bimap_complete] blocks without a diagonal part
     have vanishing diagonal elements of O (C07/C10), left indices distinct and in range, nothing truncated. *)
-Theorem ensemble_average_is_trace_partial : forall (fock : list nat) (H : list Rhpart) (D : list Rdmpart),
+Theorem ensemble_average_is_trace : forall (fock : list nat) (H : list Rhpart) (D : list Rdmpart),
   length D = length H ->
   (forall hd, In hd (combine H D) -> length (dp_weights R (snd hd)) = hp_size R (fst hd)) ->
   forall (A : fieldop R) (O : nat -> nat -> R),
@@ -165,4 +166,61 @@ Theorem ensemble_average_is_trace_partial : forall (fock : list nat) (H : list R
   (forall b, (b < length D)%nat -> Ris_retained D b = true) ->
   Rea_prepare A D = Done (trace_rho_op fock H D O).
 Proof. exact ThermalProofs.ensemble_average_is_trace. Qed.
-Print Assumptions ensemble_average_is_trace_partial.
+Print Assumptions ensemble_average_is_trace.
+
+(** * The same statements for the complex build (eigenvectors and operator matrices over C).
+    Ccomp, Ctrace_rho_op, Cexpect are the full-space specification at C:
+    rho f g = Sum_n w_n <f|n> conj(<g|n>), Tr(rho O) = Sum_{f,g} rho f g O g f, <n|O|n> = Sum conj(<f|n>) O f g <g|n>. *)
+
+Theorem trace_eigen_form_complex : forall (fock : list nat) (H : list Chpart) (D : list Cdmpart) (O : nat -> nat -> C),
+  Ctrace_rho_op fock H D O = sum_statesK C C0 Cplus Cmult H D (Cexpect fock O).
+Proof. exact ThermalComplex.trace_eigen_form_complex. Qed.
+Print Assumptions trace_eigen_form_complex.
+
+Theorem avg_energy_is_trace_complex : forall (fock : list nat) (H : list Chpart) (D : list Cdmpart) (Hm : nat -> nat -> C),
+  (forall hp s f, In hp H -> (s < hp_size C hp)%nat -> In f fock ->
+     Csum (fun g => Cmult (Hm f g) (Ccomp hp s g)) fock = Cmult (nth s (hp_eig C hp) C0) (Ccomp hp s f)) ->
+  (forall hp s, In hp H -> (s < hp_size C hp)%nat -> Csum (fun f => Cmult (Cconj (Ccomp hp s f)) (Ccomp hp s f)) fock = C1) ->
+  (forall hd, In hd (combine H D) -> length (dp_weights C (snd hd)) = hp_size C (fst hd)) ->
+  Cdm_average_energy H D = Ctrace_rho_op fock H D Hm.
+Proof. exact ThermalComplex.avg_energy_is_trace_complex. Qed.
+Print Assumptions avg_energy_is_trace_complex.
+
+Theorem occupancy_is_trace_complex : forall (fock : list nat) (H : list Chpart) (D : list Cdmpart),
+  NoDup fock -> (forall hp, In hp H -> wf_hpartK C hp) -> (forall hp, In hp H -> incl (hp_states C hp) fock) ->
+  forall M i : nat, (i < M)%nat ->
+  Cdm_average_occupancy_i M i H D = Done (Ctrace_rho_op fock H D (Cdiag_op (fun f => Cb2 (Nat.testbit f i)))).
+Proof. exact ThermalComplex.occupancy_is_trace_complex. Qed.
+Print Assumptions occupancy_is_trace_complex.
+
+Theorem total_occupancy_is_trace_complex : forall (fock : list nat) (H : list Chpart) (D : list Cdmpart),
+  NoDup fock -> (forall hp, In hp H -> wf_hpartK C hp) -> (forall hp, In hp H -> incl (hp_states C hp) fock) ->
+  forall M : nat,
+  Cdm_average_occupancy M H D = Ctrace_rho_op fock H D (Cdiag_op (fun f => CofNat (popcount M f))).
+Proof. exact ThermalComplex.total_occupancy_is_trace_complex. Qed.
+Print Assumptions total_occupancy_is_trace_complex.
+
+Theorem double_occ_is_trace_complex : forall (fock : list nat) (H : list Chpart) (D : list Cdmpart),
+  NoDup fock -> (forall hp, In hp H -> wf_hpartK C hp) -> (forall hp, In hp H -> incl (hp_states C hp) fock) ->
+  forall M i j : nat, (i < M)%nat -> (j < M)%nat ->
+  Cdm_average_double_occupancy M i j H D =
+  Done (Ctrace_rho_op fock H D (Cdiag_op (fun f => Cmult (Cb2 (Nat.testbit f i)) (Cb2 (Nat.testbit f j))))).
+Proof. exact ThermalComplex.double_occ_is_trace_complex. Qed.
+Print Assumptions double_occ_is_trace_complex.
+
+Theorem ensemble_average_is_trace_complex : forall (fock : list nat) (H : list Chpart) (D : list Cdmpart),
+  length D = length H ->
+  (forall hd, In hd (combine H D) -> length (dp_weights C (snd hd)) = hp_size C (fst hd)) ->
+  forall (A : fieldop C) (O : nat -> nat -> C),
+  NoDup (map (op_left C) A) ->
+  (forall p, In p A -> (op_left C p < length H)%nat) ->
+  (forall p, In p A -> op_left C p = op_right C p ->
+     length (op_mat C p) = hp_size C (nth (op_left C p) H (dummy_hpK C)) /\
+     forall n, (n < hp_size C (nth (op_left C p) H (dummy_hpK C)))%nat ->
+       coeff C C0 (op_mat C p) n n = Cexpect fock O (nth (op_left C p) H (dummy_hpK C)) n) ->
+  (forall b, (b < length H)%nat -> (forall p, In p A -> op_left C p = op_right C p -> op_left C p <> b) ->
+     forall s, (s < hp_size C (nth b H (dummy_hpK C)))%nat -> Cexpect fock O (nth b H (dummy_hpK C)) s = C0) ->
+  (forall b, (b < length D)%nat -> is_retained C D b = true) ->
+  Cea_prepare A D = Done (Ctrace_rho_op fock H D O).
+Proof. exact ThermalComplex.ensemble_average_is_trace_complex. Qed.
+Print Assumptions ensemble_average_is_trace_complex.
